@@ -82,7 +82,31 @@ func legC19(e *Engine) []Violation {
 			cb.u.terms = cb.u.terms[:4]
 		}
 		var sg int
-		if r.Chance(1, 2) {
+		if i%6 == 0 {
+			// a term in a dozen documents with pairwise different frequencies, norms and locations
+			// under a chunk size of 3 or 4: iterators that leave a chunk from its middle (Advance)
+			// and are used again after the load of the next chunk failed
+			body := []byte("body")
+			cb.u.fields = [][]byte{[]byte("_id"), body}
+			cb.u.terms = [][]byte{[]byte("x"), []byte("y")}
+			n := r.Range(10, 14)
+			docs := make([]Doc, n)
+			for d := range docs {
+				t := TermOcc{Term: []byte("x"), Freq: d + 2, Locs: []Loc{{Pos: d, Start: d + 1, End: d + 2}}}
+				docs[d] = Doc{{Name: []byte("_id"), Length: 1, Terms: []TermOcc{{Term: []byte(fmt.Sprintf("d%d", d)), Freq: 1}}},
+					{Name: body, Length: d + 2 + d%2, Terms: []TermOcc{t}}}
+				if d%3 == 0 {
+					docs[d][1].Terms = append(docs[d][1].Terms, TermOcc{Term: []byte("y"), Freq: 1})
+				}
+			}
+			cs := uint32(r.Range(3, 4))
+			sg = cb.addBuild(docs, cs, "hook")
+			for _, fl := range []string{"111", "110"} {
+				c1, c2 := int(cs)+r.Intn(int(cs)), 2*int(cs)+r.Intn(int(cs))
+				cb.q("iter", itoa(sg), hx(body), "78", "~", fl, "n", "a"+itoa(c1), "n", "n", "n", "n")
+				cb.q("iter", itoa(sg), hx(body), "78", "~", fl, "n", "n", "a"+itoa(c2), "n", "n", "a"+itoa(c2+int(cs)), "n")
+			}
+		} else if r.Chance(1, 2) {
 			sg, _ = cb.genMergePlan("tiny", false)
 		} else {
 			n := r.Range(1, 6)
@@ -221,6 +245,20 @@ func legC19(e *Engine) []Violation {
 // token (after an error, later calls on the same iterator may say err, nil, or the right posting).
 func faultConsistent(healthy, got string) bool {
 	if got == healthy || strings.HasPrefix(got, "err") || strings.HasPrefix(got, "parse-err") || strings.HasPrefix(got, "segerr") {
+		return true
+	}
+	if strings.Contains(healthy, " | ") || strings.Contains(got, " | ") {
+		// per-document parts (doc values): each part is the healthy part, an error, or empty
+		hp, gp := strings.Split(healthy, " | "), strings.Split(got, " | ")
+		if len(hp) != len(gp) {
+			return false
+		}
+		for i := range gp {
+			g := strings.TrimSpace(gp[i])
+			if g != "" && g != "err" && gp[i] != hp[i] {
+				return false
+			}
+		}
 		return true
 	}
 	ht, gt := strings.Fields(healthy), strings.Fields(got)
@@ -1047,3 +1085,84 @@ func (w *World) execReentrantDV(q Query) string {
 func (w *World) segOfTok(tok string) (*RSeg, string) { return w.segOf(tok) }
 
 var _ = math.MaxInt64
+
+// legC11: persisting the same segment object again after a failed attempt.  A first WriteTo into a
+// writer that fails part-way (disk full) must not influence a later WriteTo into a healthy writer:
+// the second file is the reference file, byte for byte, CRC included.  Also interleaves successful
+// persists, so that anything a WriteTo caches in the segment is exercised.
+func legC11(e *Engine) []Violation {
+	ncase := 12
+	if e.tier == "thorough" {
+		ncase = 120
+	}
+	var vs []Violation
+	var mu sync.Mutex
+	var attempts int64
+	parallel(ncase, func(i int) {
+		r := NewRng(e.seed, "C11-retry", uint64(i))
+		cb := newCaseBuilder(caseID("C11rt", e.seed, i), r)
+		final, _ := cb.genMergePlan("tiny", false)
+		if r.Chance(1, 2) {
+			final = cb.addLoad(final, []string{"mem", "file"}[r.Intn(2)])
+		}
+		c := cb.c
+		w := BuildWorld(c)
+		defer w.Close()
+		for si, s := range w.segs {
+			if s.err != "" {
+				continue
+			}
+			// the reference file comes from a FRESH twin of the segment where possible: the object
+			// under test has then never been persisted before the failing attempt
+			ref, _, err := persist(s.seg)
+			if err != nil {
+				return
+			}
+			twin, err := ice.Load(segment.NewDataBytes(append([]byte(nil), ref...)))
+			if err != nil {
+				return
+			}
+			total := len(ref)
+			ks := []int{0, 1, total / 3, total / 2, total - 45, total - 44, total - 43, total - 5, total - 4, total - 1}
+			for x := 0; x < 4; x++ {
+				ks = append(ks, r.Intn(total))
+			}
+			for _, obj := range []segment.Segment{twin, s.seg} {
+				for _, k := range ks {
+					if k < 0 || k >= total {
+						continue
+					}
+					atomic.AddInt64(&attempts, 1)
+					lw := &limitWriter{limit: k, closeAt: -1, ch: make(chan struct{})}
+					_, ferr := obj.WriteTo(lw, nil)
+					again, n, err := persist(obj)
+					bad := ""
+					switch {
+					case ferr == nil:
+						bad = "the failing attempt reported success"
+					case err != nil:
+						bad = fmt.Sprintf("the healthy attempt failed: %v", err)
+					case n != int64(len(again)):
+						bad = fmt.Sprintf("the healthy attempt returned %d for %d bytes", n, len(again))
+					case !bytes.Equal(again, ref):
+						bad = "the healthy attempt wrote a different file"
+						if len(again) == len(ref) && bytes.Equal(again[:len(again)-4], ref[:len(ref)-4]) {
+							bad += fmt.Sprintf(" (only the CRC differs: %x, want %x)", again[len(again)-4:], ref[len(ref)-4:])
+						}
+					}
+					if bad != "" {
+						mu.Lock()
+						vs = append(vs, Violation{Prop: "C11", CaseID: c.ID, Kind: "fault", Case: c,
+							Detail: fmt.Sprintf("segment %d: WriteTo into a writer failing after %d of %d bytes, then WriteTo of the same segment into a healthy writer: %s", si, k, total, bad),
+							Extra:  fmt.Sprintf("# history: segment %d; WriteTo(writer failing after %d bytes) -> error; WriteTo(healthy) -> compared with the file of a first healthy WriteTo\n", si, k)})
+						mu.Unlock()
+						return
+					}
+				}
+			}
+		}
+		e.noteCase(c, true)
+	})
+	e.count("persist-after-failed-persist", int(attempts))
+	return vs
+}
